@@ -24,6 +24,7 @@ type task struct {
 	id       int
 	gate     chan struct{}
 	quantum  int64
+	syncQ    int64 // >0: yield after this many more synchronisation operations
 	steps    int64
 	budget   int64
 	done     bool
@@ -168,6 +169,7 @@ func RunTasks(fns []func(), budget []int64, choose Chooser) RunResult {
 		t := allTasks[id-1]
 		before := t.steps
 		t.quantum = q
+		t.syncQ, NextSyncQuantum = NextSyncQuantum, 0
 		curTask = t
 		t.gate <- struct{}{}
 		<-schedBk
